@@ -29,7 +29,7 @@ def c15(chk, opts):
             raise ToolError("sendsync does not build:\n" + out[-3000:])
     trace = chk.path("c15.ndjson")
     hx(["c15", "--seed", chk.seed, "--pool", 40, "--schedules", sf, "--random", 400 if thorough else 80,
-        "--threads", 16, "--rounds", 12 if thorough else 3, "--big-rounds", 8 if thorough else 3, "--out", trace], timeout=3000)
+        "--threads", 16, "--rounds", 12 if thorough else 3, "--big-rounds", 8 if thorough else 3, "--storm", 40000 if thorough else 8000, "--out", trace], timeout=3000)
     if send_ok:
         rc, out = run([binpath("release", "sendsync")], timeout=60)
         with open(trace, "a") as f:
@@ -39,7 +39,7 @@ def c15(chk, opts):
     for e in events:
         op = e[7:e.index('"', 7)]
         counts[op] = counts.get(op, 0) + 1
-    if counts.get("inter", 0) < want or counts.get("thread", 0) < 16 or counts.get("solo", 0) < 40:
+    if counts.get("inter", 0) < want or counts.get("thread", 0) < 16 or counts.get("solo", 0) < 40 or counts.get("storm", 0) < 16:
         raise ToolError("recorder produced too few events: %s" % counts)
     evs = None
     for i in bad:
@@ -65,7 +65,7 @@ def c15(chk, opts):
     chk.assumptions = ["preemption inside a call is not modelled: there is no shared variable for it to act on, which is what the interleaving replay, "
                        "the concurrent threads and the Send + Sync assertions test"]
     return chk.finish(rule="solo run of each of 40 configurations in its own child process; every interleaving of 3 live iterators x %d calls (enumerated by TLC) and random "
-                           "schedules over 2-6 iterators replayed on one thread; 16 concurrent threads x rounds each draining its own evaluator; compile-time Send + Sync" % (4 if thorough else 3),
+                           "schedules over 2-6 iterators replayed on one thread; 16 concurrent threads x rounds each draining its own evaluator; a construction storm (16 threads x %d evaluators over different flops built, drained, dropped); compile-time Send + Sync" % (4 if thorough else 3, 40000 if thorough else 8000),
                       extra={"event_counts": counts, "schedules_from_tlc": len(set(scheds))})
 
 
